@@ -14,6 +14,10 @@ def c01_window(x, y, a, c, gross=None, comm=None):
     rem = (x * y) % s
     if not (0 < rem * D < s):
         return False
+    # the finding exists only where the unchanged compute_swap returns at all: its spread subtraction
+    # floor(y*a/x) - ceil(g) aborts when negative (x = 0 aborts in the division before it)
+    if x == 0 or (y * a) // x < y - (x * y) // s:
+        return False
     if gross is not None and gross != y - (x * y) // s:
         return False
     if comm is not None and gross is not None and comm != gross * c // D:
